@@ -426,7 +426,10 @@ def observe(case):
 
 def model_request(case):
     if case.get("handoff"):
-        return None      # the machine's lock releases without suspending: hand-off locks are judged by the oracles alone
+        # a lock whose __aexit__ suspends AFTER releasing: Machines/CachedPropertyHandoff.lean (two-phase release)
+        return {"m": "cachedpropertyhandoff", "mode": case["kind"], "lock": case["lock"] == "lock", "susp": case["susp"],
+                "ok": case["ok"], "ninst": case.get("ninst", 2), "ops": case["ops"], "drain": case.get("drain", 0),
+                "handoff": case["handoff"]}
     return {"m": "cachedprop", "mode": case["kind"], "lock": case["lock"] == "lock", "susp": case["susp"],
             "ok": case["ok"], "ninst": case.get("ninst", 2), "ops": case["ops"], "drain": case.get("drain", 0)}
 
@@ -479,7 +482,12 @@ def judge(case, obs, model):
             issues.append(Issue("A", model))
         else:
             lockmode = case["lock"] == "lock"
-            real, mod = _rename(obs["trace"], lockmode), _rename(model["trace"], lockmode)
+            trace = obs["trace"]
+            if case.get("handoff"):
+                # a cancellation that lands while the task is suspended in the lock's __aexit__ is that suspension's business
+                trace = [[st[0], ["handoff"] if st[1][0] == "cancel-swallowed" and st[1][1][:1] == ["unlock"] else st[1]] + list(st[2:])
+                         for st in trace]
+            real, mod = _rename(trace, lockmode), _rename(model["trace"], lockmode)
             for n, (a, b) in enumerate(zip(real, mod)):
                 if a != b:
                     issues.append(Issue("A", {"first_diff_at_op": n, "impl": a, "model": b}))
